@@ -235,10 +235,10 @@ def run(tier, seed, replay=None):
             checks.append((case, O.snapshot(o)))
     # model predicate on the snapshots (L1: both readings of "well formed" agree)
     outs = C.run_model(['wf_obj %s %s' % (C.qs(tol), O.obj_tokens(s)) for _, s in checks])
-    corr_bad = None
+    corr_bad = C.Corr()
     for tk, (case, s) in zip(outs, checks):
-        if not tk.int() and corr_bad is None:
-            corr_bad = dict(case, what='L1: the model predicate wf_obj rejects an object the implementation-side predicate accepts', obj=O.spec_json(s))
+        if not tk.int() and corr_bad.open():
+            corr_bad += dict(case, what='L1: the model predicate wf_obj rejects an object the implementation-side predicate accepts', obj=O.spec_json(s))
     # ------------------------------------------------------------------ constructor: malformed stream
     lines, cmeta = [], []
     nctor = 150 if tier == 'quick' else 3000
@@ -284,8 +284,8 @@ def run(tier, seed, replay=None):
         if tk.word() == 'Err':
             merr = tk.word()
         case = {'what': '', 'ctor': dict(order=p, knots=[str(x) for x in ke], periodic=per), 'kind': kind}
-        if merr != err and corr_bad is None:
-            corr_bad = dict(case, what='L1: constructor raises %s, model %s' % (err, merr))
+        if merr != err and corr_bad.open():
+            corr_bad += dict(case, what='L1: constructor raises %s, model %s' % (err, merr))
         # L2: the statement's converse
         n = len(ke)
         decreasing = any(ke[i + 1] - ke[i] < -tol for i in range(n - 1))
@@ -296,7 +296,7 @@ def run(tier, seed, replay=None):
             V.failure(dict(case, what='L2: constructor rejected a well-formed knot vector with %s' % err))
         if kind == 'periodic_mismatch' and per >= 0 and p >= 1 and n >= 2 * p and err != 'ValueError' and (p + per - 1) > 0:
             V.failure(dict(case, what='L2: constructor accepted a periodic knot vector whose ends do not match'))
-    rc = V.finish(l0, corr_bad if not V.fail else None)
+    rc = V.finish(l0, corr_bad)
     C.write_evidence(PID, tier, seed, l0, {
         'evaluations': evals, 'distinct_nontrivial': len(nontriv),
         'rule': 'histories of up to %d public operations (%s) from random open/periodic start objects; after every step the structural predicate, accessor consistency, '
